@@ -211,12 +211,16 @@ class CrawlRun(object):
         self.answer_log = []
         self.task_item = {}
         self.max_requests = 400
+        self.max_events = max(6000, 40 * len(self.site.desc.get('urls', ())))
         self.split_answers = False
         self.wire = {}          # URL text -> the response octets the server sent (for checks that read archives)
 
     # ---- logging and crash points
     def log(self, **kw):
         self.ev.append(kw)
+        if len(self.ev) > self.max_events and not getattr(self, '_tripped', False):
+            self._tripped = True
+            raise Runaway('events')       # a crawl that keeps recording events without ever finishing
         if self.trace_fd is not None:
             os.write(self.trace_fd, (json.dumps(kw) + '\n').encode())
         self.points += 1
@@ -321,7 +325,11 @@ class CrawlRun(object):
         run = self
         net = self.net = fakenet.FakeNet()
         for h, ip in self.site.hosts.items():
+            if h in self.site.desc.get('nodns', ()):
+                continue                    # the name does not resolve
             net.add_host(h, ip)
+            if h in self.site.desc.get('refuse', ()):
+                continue                    # nobody listens: connections are refused
             ports = set([80] + [u.get('port', 80) for u in self.site.desc['urls'] if u['host'] == h])
             for p in ports:
                 net.listen(ip, p, lambda ep: SiteServer(run, ep))
